@@ -1,7 +1,8 @@
 /-
 Model of the input-file writers (C19), at the level of characters:
 `iodata/inputs/common.py::write_input_base`, `inputs/gaussian.py`, `inputs/orca.py`,
-`api.write_input` (api.py:410-449).  Core Lean only (the driver links this file).
+`api.write_input` (api.py:410-449), with an arbitrary `atom_line` callback.  Core Lean only (the driver links
+this file).
 
 Numbers: a coordinate is carried as the INTEGER `k = round(x/angstrom · 10^6)`; the `10.6f`
 field printed for it is `fmtFix6 k`.  Charge and spin polarisation are exact rationals.
@@ -145,9 +146,85 @@ def joinNl : List Str → Str
   | [l] => l
   | l :: ls => l ++ '\n' :: joinNl ls
 
-/-- `"\n".join(atom_line(data, i) for i in range(natom))` -/
+/-- `"\n".join(default_atom_line(data, i) for i in range(natom))` written over the atoms
+(kept as the reference form of the default geometry; `geometryWith_default` ties it to `geometryWith`) -/
 def geometry (num2sym : List (Nat × Str)) (atoms : List Atom) : Option Str :=
   (allSome (atoms.map (atomLine num2sym))).map joinNl
+
+/-! ### atom-line callbacks (`atom_line=` of `api.write_input`) -/
+
+/-- An exception leaving a callback, as the funnel `except Exception` of `api.write_input` sees it:
+an instance of (a subclass of) `Exception`, or of `BaseException` only (`KeyboardInterrupt`, `SystemExit`,
+`GeneratorExit`, user subclasses of `BaseException`).  `cls` is the class name. -/
+inductive Raised where
+  | exception (cls : Str)
+  | baseOnly (cls : Str)
+  deriving DecidableEq, Repr
+
+/-- What one call `atom_line(data, iatom)` does: return a `str` (any text: braces, newlines, empty),
+return an object that is not a `str` (`None`, `int`, `bytes`, …), or raise. -/
+inductive LineRes where
+  | line (s : Str)
+  | nonStr
+  | raises (r : Raised)
+  deriving DecidableEq, Repr
+
+/-- A callback is any function of the object and the atom index (deterministic, does not modify the object). -/
+abbrev AtomLineFn := Mol → Nat → LineRes
+
+def sKeyError : Str := ['K','e','y','E','r','r','o','r']
+def sIndexError : Str := ['I','n','d','e','x','E','r','r','o','r']
+
+/-- result of `default_atom_line` for one atom: the line, or `KeyError` from `num2sym[atnum]` -/
+def defaultRes (num2sym : List (Nat × Str)) (a : Atom) : LineRes :=
+  match atomLine num2sym a with
+  | none => .raises (.exception sKeyError)
+  | some l => .line l
+
+/-- `default_atom_line(data, iatom)` of `inputs/gaussian.py` and `inputs/orca.py` (same body, see
+`atom_line_layout`); `data.atnums[iatom]` outside the arrays is an `IndexError` -/
+def defaultAtomLine (num2sym : List (Nat × Str)) : AtomLineFn := fun m i =>
+  match m.atoms[i]? with
+  | none => .raises (.exception sIndexError)
+  | some a => defaultRes num2sym a
+
+/-- `[atom_line(data, iatom) for iatom in range(data.natom)]`: the arguments of the calls made, in order —
+the comprehension stops at the first call that raises, a non-`str` return value does not stop it. -/
+def callsMade (f : Nat → LineRes) : List Nat → List Nat
+  | [] => []
+  | i :: is =>
+    match f i with
+    | .raises _ => [i]
+    | _ => i :: callsMade f is
+
+/-- the list built by the comprehension (`none` = a non-`str` item), or the first exception raised -/
+def collect : List LineRes → Except Raised (List (Option Str))
+  | [] => .ok []
+  | .raises r :: _ => .error r
+  | .line s :: rs => (collect rs).map (some s :: ·)
+  | .nonStr :: rs => (collect rs).map (none :: ·)
+
+inductive GeomRes where
+  | ok (g : Str)
+  | typeError            -- `"\n".join(geometry)`: "sequence item i: expected str instance"
+  | raised (r : Raised)  -- a callback raised
+  deriving DecidableEq, Repr
+
+/-- the comprehension followed by `"\n".join(geometry)`, over the results of the calls -/
+def geomOf (rs : List LineRes) : GeomRes :=
+  match collect rs with
+  | .error r => .raised r
+  | .ok items =>
+    match allSome items with
+    | some lines => .ok (joinNl lines)
+    | none => .typeError
+
+/-- `geometry = [atom_line(data, iatom) for iatom in range(data.natom)]; "\n".join(geometry)` -/
+def geometryWith (f : AtomLineFn) (m : Mol) : GeomRes :=
+  geomOf ((List.range m.atoms.length).map (f m))
+
+def geometryCalls (f : AtomLineFn) (m : Mol) : List Nat :=
+  callsMade (f m) (List.range m.atoms.length)
 
 /-! ### programs -/
 
@@ -172,6 +249,8 @@ def orDefault (x : Option Str) (d : Str) : Str :=
 inductive Err where
   | fileFormatError
   | writeInputError
+  /-- a `BaseException` that is not an `Exception` leaves `api.write_input` unchanged -/
+  | passThrough (cls : Str)
   deriving DecidableEq, Repr
 
 def sTitle : Str := ['t','i','t','l','e']
@@ -202,27 +281,61 @@ def programFields (p : Program) (m : Mol) : Option Fields :=
 def allFields (pf : Fields) (m : Mol) (kwargs : Fields) (geom : Str) : Fields :=
   override (override (override (baseFields m) pf) kwargs) [(sGeometry, .str geom)]
 
-/-- `<program>.write_input(fh, data, template, None, **kwargs)`: the text written (incl. `print`'s newline) -/
-def render (num2sym : List (Nat × Str)) (p : Program) (m : Mol) (template : Option Str) (kwargs : Fields) :
-    Option Str :=
-  match programFields p m with
-  | none => none
-  | some pf =>
-    match geometry num2sym m.atoms with
-    | none => none
-    | some g =>
-      match format (allFields pf m kwargs g) (template.getD p.template) with
-      | .error _ => none
-      | .ok s => some (s ++ ['\n'])
+/-- how `<program>.write_input(fh, data, template, atom_line, **kwargs)` ends -/
+inductive RenderRes where
+  | ok (text : Str)       -- returned; `text` was printed to `fh` (incl. `print`'s newline)
+  | fail                  -- an `Exception` left the function; nothing was printed
+  | pass (cls : Str)      -- a `BaseException` (not `Exception`) left the function; nothing was printed
+  deriving DecidableEq, Repr
 
-/-- `api.write_input(data, filename, fmt, template=…, **kwargs)` -/
-def writeInput (num2sym : List (Nat × Str)) (programs : List Program) (m : Mol) (fmt : Str)
-    (template : Option Str) (kwargs : Fields) : Except Err Str :=
+/-- `<program>.write_input(fh, data, template, atom_line, **kwargs)`; `cb = none` is `atom_line=None`, which the
+program replaces by its `default_atom_line`.  Order as in the source: run-type keyword lookup (program module),
+then in `write_input_base` the object-derived fields, the callback once per atom, the join, `template.format`,
+and only then the single `print`. -/
+def render (num2sym : List (Nat × Str)) (p : Program) (m : Mol) (template : Option Str)
+    (cb : Option AtomLineFn) (kwargs : Fields) : RenderRes :=
+  match programFields p m with
+  | none => .fail
+  | some pf =>
+    match geometryWith (cb.getD (defaultAtomLine num2sym)) m with
+    | .raised (.exception _) => .fail
+    | .raised (.baseOnly c) => .pass c
+    | .typeError => .fail
+    | .ok g =>
+      match format (allFields pf m kwargs g) (template.getD p.template) with
+      | .error _ => .fail
+      | .ok s => .ok (s ++ ['\n'])
+
+/-- the calls `atom_line(data, i)` made by `render`, in order (none when the run type is unknown: the program
+module fails before `write_input_base` is entered) -/
+def renderCalls (num2sym : List (Nat × Str)) (p : Program) (m : Mol) (cb : Option AtomLineFn) : List Nat :=
+  match programFields p m with
+  | none => []
+  | some _ => geometryCalls (cb.getD (defaultAtomLine num2sym)) m
+
+/-- everything observable about one call of `api.write_input` -/
+structure Outcome where
+  /-- `none`: returned normally -/
+  error : Option Err
+  /-- `none`: `filename` was never opened (an existing file keeps its content, a missing one stays missing);
+  `some s`: `open(filename, "w")` happened (file created or truncated) and `s` is its content afterwards -/
+  file : Option Str
+  /-- arguments of the calls made to the atom-line function, in order -/
+  calls : List Nat
+  deriving DecidableEq, Repr
+
+/-- `api.write_input(data, filename, fmt, template=…, atom_line=…, **kwargs)`:
+`_select_input_module` (FileFormatError before anything is opened), `with open(filename, "w")`, the program's
+`write_input` inside `try … except Exception as exc: raise WriteInputError(…) from exc`. -/
+def run (num2sym : List (Nat × Str)) (programs : List Program) (m : Mol) (fmt : Str)
+    (template : Option Str) (cb : Option AtomLineFn) (kwargs : Fields) : Outcome :=
   match programs.find? (fun p => p.name == fmt) with
-  | none => .error .fileFormatError
+  | none => ⟨some .fileFormatError, none, []⟩
   | some p =>
-    match render num2sym p m template kwargs with
-    | none => .error .writeInputError
-    | some s => .ok s
+    let calls := renderCalls num2sym p m cb
+    match render num2sym p m template cb kwargs with
+    | .ok s => ⟨none, some s, calls⟩
+    | .fail => ⟨some .writeInputError, some [], calls⟩
+    | .pass c => ⟨some (.passThrough c), some [], calls⟩
 
 end Iodata.Inputs
